@@ -16,7 +16,7 @@ class Gen:
         self.mode = mode
         self.f = {"loops": True, "subs": True, "recursion": True, "bytes": True, "state": mode == "Application",
                   "log": mode == "Application" and version >= 5, "wide": version >= 5, "cond": True,
-                  "comments": True, "reserved_slots": True, "refparams": True}
+                  "comments": True, "reserved_slots": True, "refparams": True, "loopheavy": False}
         if features:
             self.f.update(features)
         self.subs: dict[str, Sub] = {}
@@ -154,6 +154,8 @@ class Gen:
             return ("assert", conds, r.choice([None, None, "chk", "a // b; int 0"]))
         if depth <= 0:
             return ("pop", self.leaf("u", scope))
+        if self.f["loopheavy"] and self.f["loops"] and self.ok(4) and self.loop_depth < 2 and r.random() < 0.6:
+            return self.loop(depth, scope)
         if c < 0.66:
             return ("ifs", self.expr("u", depth - 1, scope), self.block(depth - 1, scope),
                     self.block(depth - 1, scope) if r.random() < 0.5 else None)
@@ -198,6 +200,8 @@ class Gen:
         inc = ("store", i, ("nary", "add", [("load", i), ("int", 1)]))
         cond = ("bin", "lt", ("load", i), ("int", k))
         if r.random() < 0.5:
+            if r.random() < (0.6 if self.f["loopheavy"] else 0.2):
+                body_stmts = body_stmts + [r.choice([("break",), ("continue",)])]   # body ends with an unconditional exit
             out = ("for", ("store", i, ("int", 0)), cond, inc, ("seq", body_stmts))
         else:
             # while: increment first so that `continue` cannot loop forever
